@@ -156,7 +156,8 @@ def run(index, rep, tier):
               "extract_subtree: the edge-length merge of a single surviving child is reachable only with suppress_unifurcations truthy",
               "extract_subtree merges a single child into its parent even when suppress_unifurcations is falsy")
     # and the flag test is conjoined with the single-child test
-    single = [n for n in cfg.nodes if n.kind == "test" and "len(children_to_add) == 1" in norm(n.ast)]
+    single = [n for n in cfg.nodes if n.kind == "test" and any(n.stmt is ft.stmt for ft in flag_tests) and isinstance(n.ast, ast.Compare)
+              and isinstance(n.ast.left, ast.Call) and call_name(n.ast.left) == "len" and const_value(n.ast.comparators[0]) == 1 and isinstance(n.ast.ops[0], ast.Eq)]
     rep.check(bool(single), "R08.4", fi.qualname, "single-child test", fn_where(fi), "extract_subtree tests len(children_to_add) == 1 before merging",
               "extract_subtree no longer restricts unifurcation merging to nodes with exactly one surviving child")
 
